@@ -61,7 +61,11 @@ let () =
     let ok = simple && doc_time_simple root
              && (match res with Ok d -> List.for_all (fun it -> in_range it.ti_st && in_range it.ti_en) d.td_items | _ -> true) in
     if ok then pres ptdoc res else (Buffer.add_string b "NS "; pres (fun _ -> ()) res));
-  register "ttmlwrite" (fun r ->
-    let _indent = rstr r in
+  register "ttmlwritetree" (fun r ->
+    let indent = rstr r in
     let d = rtdoc r in
-    pres pxnode (write_ttml d))
+    pres (fun t -> pxnode (indent_doc indent t)) (write_ttml d));
+  register "ttmlwrite" (fun r ->
+    let indent = rstr r in
+    let d = rtdoc r in
+    pres pstr (write_ttml_bytes indent d))
